@@ -301,6 +301,9 @@ def inline_body(prog, body, keep):
         i += 1
     if raw is None:
         return body
+    for j, ch_ in chain.items():
+        if ch_ and j < len(blocks):
+            blocks[j]["inl_chain"] = list(ch_)
     nb = Body(prog, raw)
     nb.crate = body.crate
     nb.path = body.path
